@@ -764,7 +764,7 @@ func TestVerifC41DecodeMutated(t *testing.T) {
 	})
 }
 
-// FuzzVerifC41TreeDecode is the native fuzz target (compiled with the harness, run by hand:
+// FuzzVerifC41TreeDecode is the native fuzz target, run by ./check in the thorough tier (by hand:
 // go test -fuzz=FuzzVerifC41TreeDecode with the overlay the driver prints).
 func FuzzVerifC41TreeDecode(f *testing.F) {
 	f.Add([]byte(`{"nodes":[]}` + "\n"))
